@@ -257,6 +257,8 @@ void SimBackend::Solve() {
     sim::g.event(std::string("STOP_POLL ") + (st ? "1" : "0"));
   }
   long ninterm = script_int("n_interm", 0);
+  // a driver that knows the outcome before it hands out its pool solutions sets the status first
+  if (ninterm > 0 && script_int("interm_after_status", 0)) SetStatus({(int)script_int("status", 0), script_str("status_msg", "optimal solution")});
   if (ninterm > 0 && need_multiple_solutions()) {
     for (long s = 0; s < ninterm; ++s) {
       sim::g.yield("stub", "stub.solve.interm");
